@@ -145,6 +145,20 @@ def replace_scenario(ctx, job):
                 items.append(('replacement-on-other-host-than-partner', 'C12/replacement-on-partner-host/' + cls, info[newaddr][0] != partner_host, lambda m: dict(wit(m), replacement=newaddr, replacement_host=info[newaddr][0])))
                 items.append(('replacement-healthy', 'C12/replacement-unhealthy', newaddr not in bad and not info[newaddr][1], wit))
         ctx.require_all(e, items, replay=rp)
+        # afterwards the failed proxy is removed from the registry: allowed only if it is no longer part of a chunk
+        still_member = victim in cluster_proxies(b)
+        r2 = b.call('remove_proxy', RStr(victim))
+        wit2 = lambda m: dict(wit(m), still_member_after_failover=still_member, remove_proxy_result=repr(r2)[:80])
+        items2 = []
+        if still_member:
+            items2.append(('member-proxy-cannot-be-removed', 'C12/failed-member-removed-while-in-chunk', r2.variant == 1, wit2))
+        items2.append(('check_metadata-after-remove', 'C12/check-metadata-failed/after-remove-proxy', b.call('check').variant == 0, wit2))
+        def rp2(m):
+            sp = dict(b.replay_spec(m, ('metadata',), (0,)), retries=2)
+            if still_member and sp['spec']['ops']:
+                sp['spec']['ops'][-1]['expect'] = 'Err'; sp['spec']['ops'][-1]['violation_key'] = 'C12/failed-member-removed-while-in-chunk'
+            return sp
+        ctx.require_all(e, items2, replay=rp2)
         return 1
     name = 'replace layout=%s chunks=%d' % (job['layout'], job.get('chunks', 1))
     res = ctx.explore(name, run, engine_setup=setup)
